@@ -102,6 +102,15 @@ def make_state(doc, state):
         else:
             other = [s for s in secs if s is not p.parent]
             p.new_id((other[0] if other else secs[0]).id)
+    elif state in ("many-warnings-then-error", "many-errors"):
+        # a long issue list: 30 Sections that each draw a warning ahead of the one error / 30 errors
+        for i in range(30):
+            s_ = odml.Section("bulk%02d" % i, "n.s." if state.startswith("many-warnings") else "t")
+            doc.insert(0, s_)
+            if state == "many-errors":
+                s_.type = None
+        last = odml.Section("zz_last", "t", parent=doc)
+        last.type = None
     elif state == "duplicate-section":
         c = odml.Section("tmpname", secs[0].type, parent=secs[0].parent)
         c._name = secs[0].name
@@ -116,7 +125,7 @@ def make_state(doc, state):
 
 STATES = ["valid", "warnings-only", "untyped-section", "duplicate-ids", "duplicate-ids-cross-branch-prop",
           "duplicate-ids-cross-branch-sec", "duplicate-ids-prop-equals-section", "duplicate-ids-prop-equals-document",
-          "duplicate-section", "duplicate-property"]
+          "duplicate-section", "duplicate-property", "many-warnings-then-error", "many-errors"]
 
 
 def faults_for(fmt):
